@@ -39,7 +39,7 @@ fn small_vcf() -> (Vec<String>, Vec<gen::Rec>) {
     let cols: Vec<String> = ["a", "b", "c"].iter().map(|s| s.to_string()).collect();
     let rows = [["0/1", "1/1", "0/0"], ["0/0", "0|1", "./."], ["1/1", "0/1", "1/2"]];
     let recs = rows.iter().enumerate().map(|(i, r)| gen::Rec {
-        contig: "chr1".into(), pos: (i + 1) as u64, bad: false,
+        contig: "chr1".into(), pos: (i + 1) as u64, bad: false, nogt: false,
         gt: cols.iter().cloned().zip(r.iter().map(|s| s.to_string())).collect(),
     }).collect();
     (cols, recs)
@@ -265,6 +265,41 @@ pub fn run(case: &Value, ctx: &Ctx) -> Outcome {
                     let r = cli::sfs(ctx, &args, Some(&bytes));
                     verdict(&mut out, format!("mutate/{format}/{field}/{how}"), &r, expect, json!({"sc": sc, "seed": k, "args": args}));
                 }
+            }
+        }
+        "shapeop" => {
+            // an EMPTY spectrum (some axis has length zero) written with the shape text of the scenario
+            let shape = sc["shape"].as_str().unwrap();
+            let bytes: Vec<u8> = if sc["format"] == "text" {
+                format!("#SHAPE=<{shape}>\n\n").into_bytes()
+            } else {
+                let tuple = shape.split('/').map(|x| format!("{x},")).collect::<Vec<_>>().join(" ");
+                let dict = format!("{{'descr': '<f8', 'fortran_order': False, 'shape': ({tuple}), }}");
+                let pad = (64 - (10 + dict.len() + 1) % 64) % 64;
+                crate::fam_npy::assemble(1, &format!("{dict}{}\n", " ".repeat(pad)), &[])
+            };
+            let op: Vec<String> = sc["op"].as_array().unwrap().iter().map(|x| x.as_str().unwrap().to_string()).collect();
+            let args: Vec<&str> = op.iter().map(|x| x.as_str()).collect();
+            let r = cli::sfs(ctx, &args, Some(&bytes));
+            verdict(&mut out, format!("shapeop/{}/{}", shape, op.join(" ")), &r, expect, sc.clone());
+        }
+        "threads" => {
+            let (cols, recs) = small_vcf();
+            let vcf = gen::vcf_text(&cols, &recs, false).into_bytes();
+            let container = sc["container"].as_str().unwrap();
+            let bytes = match container {
+                "vcf" => vcf.clone(),
+                "vcf.gz" => gen::bgzf_lines(&vcf, false),
+                "bcf" => gen::bgzf_chunks(&gen::own_bcf(&cols, &recs), 200),
+                _ => gen::own_bcf(&cols, &recs),
+            };
+            let t = sc["t"].as_str().unwrap();
+            let reference = cli::sfs(ctx, &["create", "-t", "1"], Some(&vcf));
+            let r = cli::sfs(ctx, &["create", "-t", t], Some(&bytes));
+            verdict(&mut out, format!("threads/{container}/{t}"), &r, expect, sc.clone());
+            if r.ok() && reference.ok() {
+                out.check(r.stdout == reference.stdout, || format!("cli/threads-output/{container}/{t}"),
+                    || json!({"sc": sc, "got": String::from_utf8_lossy(&r.stdout), "want": String::from_utf8_lossy(&reference.stdout)}));
             }
         }
         other => out.fail("cli/unknown-kind", json!(other)),
